@@ -311,8 +311,7 @@ func firstMatchRules(c *core.Ctx) {
 			c.Fail("first-match", cname, fn.Pos(), "the scan is not an ascending range over the listing argument")
 			continue
 		}
-		idx := &ir.Term{Op: "bin", Aux: "+", Args: sorted2(an.Start[h].Reg(l.Phi), ir.Const("1"))}
-		elem := &ir.Term{Op: "load", Aux: "0", Args: []*ir.Term{{Op: "iaddr", Args: []*ir.Term{l.RangeOver, idx}}}}
+		elem := l.Elem(an)
 		ok := true
 		nFound := 0
 		for _, p := range an.Segs[h] {
@@ -533,7 +532,7 @@ func fmapRule(c *core.Ctx) {
 		c.Fail("positional", "hseq.FMap", fn.Pos(), "not an ascending range over the sequence")
 		return
 	}
-	idx := &ir.Term{Op: "bin", Aux: "+", Args: sorted2(an.Start[h].Reg(l.Phi), ir.Const("1"))}
+	idx := l.Index(an)
 	ok, n := true, 0
 	for _, p := range an.Segs[h] {
 		if p.To != h {
